@@ -15,4 +15,4 @@ done
 git -C /repo checkout -- . && git -C /repo clean -fdq -- lib cli pna 2>/dev/null
 # restore the unmutated builds
 (cd /verif/harness && cargo build --offline >/dev/null 2>&1)
-(RUSTFLAGS="--cfg pna_verif" cargo build --offline --manifest-path /repo/Cargo.toml -p portable-network-archive --bin pna --target-dir /verif/build/repo-target >/dev/null 2>&1)
+(RUSTFLAGS="--cfg pna_verif" cargo build --offline --config 'profile.dev.package."*".opt-level=2' --manifest-path /repo/Cargo.toml -p portable-network-archive --bin pna --target-dir /verif/build/repo-target >/dev/null 2>&1)
